@@ -61,6 +61,10 @@ def addField (fo : Option String) (c : Child) : Child := { c with fields := fo.t
 /-- how many children carry field `f` -/
 def cnt (f : String) (ks : List Child) : Nat := (ks.filter (fun c => decide (f ∈ c.fields))).length
 
+/-- named children that carry no field (what `"children"` of node-types describes) -/
+def isPlain (c : Child) : Bool := c.fields.isEmpty && c.ty.named
+def cntPlain (ks : List Child) : Nat := (ks.filter isPlain).length
+
 /-- the children contributed by one step, given the derivations `K` of hidden rules -/
 def StepKids (G : Grammar) (K : Nat → List Child → Prop) (s : Step) (k : List Child) : Prop :=
   match visTy G s with
@@ -86,6 +90,9 @@ structure Info where
   childMin : Nat → Nat
   fieldMax : Nat → String → Nat
   fieldMin : Nat → String → Nat
+  plainTypes : Nat → List TypeRef      -- kinds of named children without a field
+  plainMax : Nat → Nat
+  plainMin : Nat → Nat
 
 /-- upper bound contributed by a step to the number of children / of children with field `f`
 (2 = many; sums saturate because only `< 2` is ever used) -/
@@ -117,6 +124,20 @@ def stepFieldMin (G : Grammar) (I : Info) (f : String) (s : Step) : Nat :=
     | .token _ => 0
     | .rule h _ => if s.field = some f then I.childMin h else I.fieldMin h f
 
+def stepPlainMax (G : Grammar) (I : Info) (s : Step) : Nat :=
+  match visTy G s with
+  | some ty => if s.field = none ∧ ty.named = true then 1 else 0
+  | none => match G.kind s.sym with
+    | .token _ => 0
+    | .rule h _ => if s.field = none then I.plainMax h else 0
+
+def stepPlainMin (G : Grammar) (I : Info) (s : Step) : Nat :=
+  match visTy G s with
+  | some ty => if s.field = none ∧ ty.named = true then 1 else 0
+  | none => match G.kind s.sym with
+    | .token _ => 0
+    | .rule h _ => if s.field = none then I.plainMin h else 0
+
 def sumBy (g : Step → Nat) : List Step → Nat
   | [] => 0
   | s :: rest => g s + sumBy g rest
@@ -124,13 +145,15 @@ def sumBy (g : Step → Nat) : List Step → Nat
 /-- the inequations of `get_variable_info` for one step of a production of `v` -/
 def StepClosed (G : Grammar) (I : Info) (v : Nat) (s : Step) : Prop :=
   match visTy G s with
-  | some ty => ty ∈ I.children v ∧ ∀ f, s.field = some f → ty ∈ I.fieldTypes v f
+  | some ty => ty ∈ I.children v ∧ (∀ f, s.field = some f → ty ∈ I.fieldTypes v f) ∧
+      (s.field = none → ty.named = true → ty ∈ I.plainTypes v)
   | none => match G.kind s.sym with
     | .token _ => True
     | .rule h _ =>
       (∀ t ∈ I.children h, t ∈ I.children v) ∧
       (∀ g, ∀ t ∈ I.fieldTypes h g, t ∈ I.fieldTypes v g) ∧
-      (∀ f, s.field = some f → ∀ t ∈ I.children h, t ∈ I.fieldTypes v f)
+      (∀ f, s.field = some f → ∀ t ∈ I.children h, t ∈ I.fieldTypes v f) ∧
+      (s.field = none → ∀ t ∈ I.plainTypes h, t ∈ I.plainTypes v)
 
 /-- `I` is closed under the inequations for every production of every variable:
 types flow up through hidden rules, the bounds of a variable dominate every production's sum -/
@@ -140,7 +163,9 @@ def Closed (G : Grammar) (I : Info) : Prop :=
     (I.childMax v < 2 → sumBy (stepChildMax G I) p ≤ I.childMax v) ∧
     (∀ f, I.fieldMax v f < 2 → sumBy (stepFieldMax G I f) p ≤ I.fieldMax v f) ∧
     (I.childMin v ≤ sumBy (stepChildMin G I) p) ∧
-    (∀ f, I.fieldMin v f ≤ sumBy (stepFieldMin G I f) p)
+    (∀ f, I.fieldMin v f ≤ sumBy (stepFieldMin G I f) p) ∧
+    (I.plainMax v < 2 → sumBy (stepPlainMax G I) p ≤ I.plainMax v) ∧
+    (I.plainMin v ≤ sumBy (stepPlainMin G I) p)
 
 /-- what soundness means for one variable and one derived children sequence -/
 def Admits (I : Info) (v : Nat) (ks : List Child) : Prop :=
@@ -148,6 +173,9 @@ def Admits (I : Info) (v : Nat) (ks : List Child) : Prop :=
   (I.childMax v < 2 → ks.length ≤ I.childMax v) ∧
   (∀ f, I.fieldMax v f < 2 → cnt f ks ≤ I.fieldMax v f) ∧
   (I.childMin v ≤ ks.length) ∧
-  (∀ f, I.fieldMin v f ≤ cnt f ks)
+  (∀ f, I.fieldMin v f ≤ cnt f ks) ∧
+  (∀ c ∈ ks, isPlain c = true → c.ty ∈ I.plainTypes v) ∧
+  (I.plainMax v < 2 → cntPlain ks ≤ I.plainMax v) ∧
+  (I.plainMin v ≤ cntPlain ks)
 
 end TsVerif.C16.Derive
